@@ -15,7 +15,7 @@ use std::os::unix::ffi::OsStrExt;
 use std::path::{Path, PathBuf};
 use tiny_std::io::{Read as _, Write as _};
 use tiny_std::UnixString;
-use vharness::{guarded, json, quiet_panics, Value};
+use vharness::{json, Value};
 
 const SMALL: usize = 64;
 
@@ -95,7 +95,7 @@ fn dump(root: &Path) -> Value {
             std::fs::read_dir(dir).unwrap().map(|e| e.unwrap().file_name()).collect();
         names.sort();
         for name in names {
-            let path = dir.join(&name);
+            let path = if dir == Path::new(".") { PathBuf::from(&name) } else { dir.join(&name) };
             let md = std::fs::symlink_metadata(&path).unwrap();
             rel.push(name.to_string_lossy().into_owned());
             let ft = md.file_type();
@@ -130,6 +130,13 @@ fn err_val(e: &tiny_std::Error) -> Value {
         tiny_std::Error::Uncategorized(m) => json!({"class": "err", "v": [], "errno": 0, "msg": m}),
         tiny_std::Error::Timeout => json!({"class": "err", "v": [], "errno": 0, "msg": "timeout"}),
     }
+}
+static IN_OP: std::sync::atomic::AtomicBool = std::sync::atomic::AtomicBool::new(false);
+fn guarded<T>(f: impl FnOnce() -> T) -> Result<T, String> {
+    IN_OP.store(true, std::sync::atomic::Ordering::Relaxed);
+    let r = vharness::guarded(f);
+    IN_OP.store(false, std::sync::atomic::Ordering::Relaxed);
+    r
 }
 fn wrap<T>(r: Result<tiny_std::Result<T>, String>, f: impl FnOnce(T) -> Value) -> Value {
     match r {
@@ -257,15 +264,16 @@ fn seq_mode(plans: &str, base: &str, skip: usize) {
             Some(t) => t.clone(),
             None => inits[plan["init"].as_u64().unwrap() as usize - 1].clone(),
         };
-        build(&root, &tree);
         std::env::set_current_dir(&root).unwrap();
+        // everything the observer does is relative to the root, so that paths up to PATH_MAX fit
+        build(Path::new(""), &tree);
         // announce the plan before running it: a crash is attributed to it
         writeln!(out, "{}", json!({"ev": "begin", "id": id})).unwrap();
         out.flush().unwrap();
-        writeln!(out, "{}", json!({"ev": "reset", "id": id, "tree": dump(&root)})).unwrap();
+        writeln!(out, "{}", json!({"ev": "reset", "id": id, "tree": dump(Path::new("."))})).unwrap();
         for o in plan["ops"].as_array().unwrap() {
             let (shown, res) = run_op(&root, o);
-            writeln!(out, "{}", json!({"ev": "op", "id": id, "o": shown, "res": res, "tree": dump(&root)})).unwrap();
+            writeln!(out, "{}", json!({"ev": "op", "id": id, "o": shown, "res": res, "tree": dump(Path::new("."))})).unwrap();
         }
         out.flush().unwrap();
         std::env::set_current_dir(&home).unwrap();
@@ -370,7 +378,12 @@ fn bigcopy_mode(base: &str, len: u64, dst_len: u64) {
 }
 
 fn main() {
-    quiet_panics();
+    // panics of the code under test are data (quiet); panics of the driver itself are tool errors (loud)
+    std::panic::set_hook(Box::new(|info| {
+        if !IN_OP.load(std::sync::atomic::Ordering::Relaxed) {
+            eprintln!("fsops driver panic: {info}");
+        }
+    }));
     let a: Vec<String> = std::env::args().collect();
     match a[1].as_str() {
         "seq" => seq_mode(&a[2], &a[3], a.get(4).and_then(|s| s.parse().ok()).unwrap_or(0)),
